@@ -35,6 +35,10 @@ type cfgData struct {
 	// breaks: the connection handed to the first requester stops working
 	// (reports TRANSIENT_FAILURE) while it is held; later requesters arrive
 	breaks bool
+	// forcedSlow: the first n dials are slow (they complete only once everybody
+	// is parked) without that costing a deviation: a burst of dials to distinct
+	// addresses in flight while further requesters arrive
+	forcedSlow int
 }
 
 type harness struct{}
@@ -79,6 +83,13 @@ func configsBase(tier string) []xplore.Config {
 	// connection that stops working while held stays the holders' connection
 	for _, s := range [][]string{{"A", "A"}, {"A", "A", "A"}, {"A", "A", "B"}} {
 		out = append(out, xplore.Config{Name: fmt.Sprintf("requesters=%v, the held connection breaks before the others arrive", s), Bound: bound - 1, Data: cfgData{addrs: s, rounds: 1, breaks: true}})
+	}
+	// a burst: three / four / five dials to distinct addresses in flight (slow)
+	// while two requesters ask for one further address
+	for _, n := range []int{3, 4, 5} {
+		addrs := []string{"B", "C", "D", "E", "F"}[:n]
+		addrs = append(append([]string{}, addrs...), "A", "A")
+		out = append(out, xplore.Config{Name: fmt.Sprintf("requesters=%v, the dials of the first %d are slow and still in flight when the two requesters of A arrive", addrs, n), Bound: 1, Data: cfgData{addrs: addrs, rounds: 1, forcedSlow: n}})
 	}
 	rb := bound - 1
 	out = append(out, xplore.Config{Name: "requesters=[A A] canceller=false rounds=2", Bound: bound, Data: cfgData{addrs: []string{"A", "A"}, rounds: 2}})
@@ -135,7 +146,11 @@ func (harness) Run(cfg xplore.Config, ch vrt.Chooser, trace bool) (xplore.Outcom
 			rec := &dialRec{addr: target}
 			dials = append(dials, rec)
 			defer func() { inflight[target]-- }()
-			rec.outcome = vrt.Choose(5, true) // 0 ok, 1 error, 2 slow ok, 3 slow error, 4 slow ok that does not look at its context
+			if len(dials) <= d.forcedSlow {
+				rec.outcome = 2
+			} else {
+				rec.outcome = vrt.Choose(5, true) // 0 ok, 1 error, 2 slow ok, 3 slow error, 4 slow ok that does not look at its context
+			}
 			if rec.outcome == 4 {
 				// a dialer need not observe cancellation: the connection it returns
 				// after its initiator gave up still has to be closed by somebody
